@@ -2,7 +2,7 @@
 import os
 import re
 
-from framework import CaseResult, text_points
+from framework import scale, CaseResult, text_points
 from props.diskcommon import (FULL, argv_sources, compare_action, dmodel_outcome, expected_entry, ext_of, gen_sources, model_srcs,
                               run_disk, setup_sources)
 from props.tapecommon import CaseDir
@@ -76,7 +76,7 @@ def gen_case(rng, tier):
 
 
 def gen_cases(rng, tier):
-    n = 64 if tier == "quick" else 1200
+    n = scale(tier, 64, 1200)
     cases = [gen_case(rng, tier) for _ in range(n)]
     cases.append({"is_fd": True, "verbose": True, "sources": [{"arg": "empty.dat", "content": {"hex": ""}}, {"arg": "noext", "content": {"pat": "41", "len": 300}},
                                                               {"arg": "full.bin", "content": {"rand": 3, "len": FULL - 2 * 2040}}, {"arg": "next.txt", "content": {"pat": "42", "len": 2041}}]})
